@@ -33,7 +33,7 @@ Fixpoint strip_prefix (p d : list N) : option (list N) :=
   | _ :: _, [] => None
   end.
 
-(* read_blob after fs::read: strip_prefix(MAGIC), split_first_chunk::<4>, version check *)
+(* read_blob after fs::read and the content-address check: strip_prefix(MAGIC), split_first_chunk::<4>, version check *)
 Definition unframe (d : list N) : option (list N) :=
   match strip_prefix MAGIC d with
   | Some (b0 :: b1 :: b2 :: b3 :: pl) =>
@@ -113,8 +113,9 @@ Section Store.
     | None => ((n, data) :: bs, n)
     end.
 
+  (* read_blob: a file whose bytes no longer hash to its name is damaged = a miss *)
   Definition read_blob (bs : blobs) (n : name) : option (list N) :=
-    obind (blob_lookup n bs) unframe.
+    obind (blob_lookup n bs) (fun d => if name_eqb (H d) n then unframe d else None).
 
   Definition names (e : entry) : list name :=
     match e_frag e with Some n => [n] | None => [] end ++
@@ -341,8 +342,8 @@ Definition view_id (paths : list N) (s : state idname) :=
    | None => None
    | Some hd =>
        Some (map (fun p => omap (fun e => (e_hash e, e_frag e, e_deps e, e_tests e, e_diag e,
-                                            obind (e_frag e) (read_blob idname bytes_eqb (d_blobs (fst s))),
-                                            obind (e_diag e) (read_blob idname bytes_eqb (d_blobs (fst s)))))
+                                            obind (e_frag e) (read_blob idname bytes_eqb (fun d => d) (d_blobs (fst s))),
+                                            obind (e_diag e) (read_blob idname bytes_eqb (fun d => d) (d_blobs (fst s)))))
                                  (lookup p (h_files hd))) paths)
    end).
 
